@@ -832,6 +832,104 @@ def ecModelCS [Add K] [Sub K] [Mul K] [Div K] [Neg K] [One K] [OfNat K 0] [IntCa
   | none => none
   | some nc => ecModel fac u (fun _ => nc) c
 
+/-! ### the legacy `C` / `ij` format of `ElasticConstants.model(model=…)`
+
+  The reader tries the `Cij` entry first; when ANYTHING in that fails (bare `except:`) it reads the old format: a list
+  `C` of `{stiffness: value-with-unit, ij: "i j"}` entries, turned into keywords `C<i><j>` and handed to
+  `ElasticConstants(**c_dict)`, which dispatches on the NUMBER of keywords (and on `C14` for 6 / 7 of them). -/
+
+/-- `'C' + C['ij'][0] + C['ij'][2]` (a string shorter than three characters is an `IndexError`). -/
+def legacyKey (ij : String) : Option String :=
+  match ij.toList with
+  | a :: _ :: b :: _ => some ("C" ++ String.ofList [a, b])
+  | _ => none
+
+section legacy
+variable [Add K] [Sub K] [Mul K] [Div K] [Neg K] [OfNat K 0] [IntCast K]
+
+/-- `ElasticConstants(**c_dict)` for the keyword sets of the standard representations (isotropic `C11 C12`, cubic,
+    5-constant hexagonal, 6- / 7-constant tetragonal, 6- / 7-constant rhombohedral, orthorhombic, monoclinic,
+    triclinic): `__init__` dispatches on the number of keywords, the constructor pops the ones it knows and refuses
+    when one is missing (so with `n` distinct keywords present the set is exactly the listed one).  `kw` is a
+    dictionary (distinct keys).  Sets with a redundant `C66` (hexagonal 6, rhombohedral 8: an `np.isclose` assertion)
+    and the other isotropic pairs are outside the model (`none` here). -/
+def legacyForm (kw : List (String × K)) : Option (List K) :=
+  let n := kw.length
+  let has : String → Bool := fun k => kw.any (fun e => e.1 == k)
+  let g : String → K := fun k => (kw.lookup k).getD 0
+  let two : K := ((2 : Int) : K)
+  if n = 2 then
+    if ["C11", "C12"].all has then some (cubicForm (g "C11") (g "C12") ((g "C11" - g "C12") / two)) else none
+  else if n = 3 then
+    if ["C11", "C12", "C44"].all has then some (cubicForm (g "C11") (g "C12") (g "C44")) else none
+  else if n = 5 then
+    if ["C11", "C33", "C12", "C13", "C44"].all has then
+      some (hexForm (g "C11") (g "C33") (g "C12") (g "C13") (g "C44")) else none
+  else if n = 6 ∨ n = 7 then
+    if has "C14" then
+      if ["C11", "C33", "C12", "C13", "C44"].all has ∧ (n = 6 ∨ has "C15") then
+        some (rhomboForm (g "C11") (g "C33") (g "C12") (g "C13") (g "C14") (if n = 6 then 0 else g "C15") (g "C44"))
+      else none
+    else if ["C11", "C33", "C12", "C13", "C44", "C66"].all has ∧ (n = 6 ∨ has "C16") then
+      some (tetraForm (g "C11") (g "C33") (g "C12") (g "C13") (g "C44") (g "C66") (if n = 6 then 0 else g "C16"))
+    else none
+  else if n = 9 then
+    if ["C11", "C22", "C33", "C12", "C13", "C23", "C44", "C55", "C66"].all has then
+      some (orthoForm (g "C11") (g "C22") (g "C33") (g "C12") (g "C13") (g "C23") (g "C44") (g "C55") (g "C66"))
+    else none
+  else if n = 13 then
+    if ["C11", "C12", "C13", "C15", "C22", "C23", "C25", "C33", "C35", "C44", "C46", "C55", "C66"].all has then
+      some (monoForm (g "C11") (g "C12") (g "C13") (g "C15") (g "C22") (g "C23") (g "C25") (g "C33") (g "C35")
+        (g "C44") (g "C46") (g "C55") (g "C66"))
+    else none
+  else if n = 21 then
+    if ["C11", "C12", "C13", "C14", "C15", "C16", "C22", "C23", "C24", "C25", "C26", "C33", "C34", "C35", "C36",
+        "C44", "C45", "C46", "C55", "C56", "C66"].all has then
+      some [g "C11", g "C12", g "C13", g "C14", g "C15", g "C16",
+            g "C12", g "C22", g "C23", g "C24", g "C25", g "C26",
+            g "C13", g "C23", g "C33", g "C34", g "C35", g "C36",
+            g "C14", g "C24", g "C34", g "C44", g "C45", g "C46",
+            g "C15", g "C25", g "C35", g "C45", g "C55", g "C56",
+            g "C16", g "C26", g "C36", g "C46", g "C56", g "C66"]
+    else none
+  else none
+
+end legacy
+
+/-- one entry of the old list: `c_dict['C' + ij[0] + ij[2]] = uc.value_unit(C['stiffness'])` (a scalar). -/
+def legacyEntryRead [Mul K] [One K] [IntCast K] (fac : String → K) (e : DM K) : Option (String × K) :=
+  match e.getStr? "ij", e.get? "stiffness" with
+  | some ij, some st =>
+    match legacyKey ij, valueUnit fac st with
+    | some k, some ⟨[], d⟩ =>
+      match d.toFlt with
+      | some [x] => some (k, x)
+      | _ => none
+    | _, _ => none
+  | _, _ => none
+
+/-- the `except:` branch: `for C in model['C']` (a list), later entries overwrite earlier ones of the same key. -/
+def ecReadLegacy [Add K] [Sub K] [Mul K] [Div K] [Neg K] [One K] [OfNat K 0] [IntCast K] [LT K] [DecidableLT K]
+    (fac : String → K) (eps atol rtol : K) (t : DM K) : Option (List K) :=
+  match t.get? "elastic-constants" with
+  | none => none
+  | some m =>
+    match m.get? "C" with
+    | some (.list l) =>
+      match mapOpt (legacyEntryRead fac) l with
+      | none => none
+      | some es =>
+        ((legacyForm (es.foldl (fun d e => dictSet d e.1 e.2) [])).bind (cijSet eps atol rtol)).bind
+          (cijSet eps atol rtol)
+    | _ => none
+
+/-- `ElasticConstants(model=t)` as the source has it: the new format, and the old one when that raises. -/
+def ecReadAny [Add K] [Sub K] [Mul K] [Div K] [Neg K] [One K] [OfNat K 0] [IntCast K] [LT K] [DecidableLT K]
+    (fac : String → K) (eps atol rtol : K) (t : DM K) : Option (List K) :=
+  match ecRead fac eps atol rtol t with
+  | some c => some c
+  | none => ecReadLegacy fac eps atol rtol t
+
 /-! ### the other API-level round trips: writer → text encoding → reader -/
 
 /-- `uc.value_unit(text(uc.model(a, units)))`. -/
